@@ -163,7 +163,8 @@ impl std::fmt::Write for Limited {
 }
 
 /// the object printed with format flags (a Display impl may pad; it must not print
-/// something that reads as another function)
+/// something that reads as another function). Precision is left out: for text, Rust defines
+/// it as truncation, and `f.pad` would honour it legitimately.
 fn flagged(d: &dyn std::fmt::Display) -> Vec<(&'static str, String)> {
     vec![
         ("{:4}", format!("{:4}", d)),
@@ -171,10 +172,7 @@ fn flagged(d: &dyn std::fmt::Display) -> Vec<(&'static str, String)> {
         ("{:<14}", format!("{:<14}", d)),
         ("{:*^21}", format!("{:*^21}", d)),
         ("{:+}", format!("{:+}", d)),
-        ("{:.3}", format!("{:.3}", d)),
-        ("{:.0}", format!("{:.0}", d)),
         ("{:#}", format!("{:#}", d)),
-        ("{:6.2}", format!("{:6.2}", d)),
     ]
 }
 
@@ -224,8 +222,12 @@ fn check_modes(kind: &str, n: usize, a: &Key, b: &Key) -> Verdict {
             }
         }
         for cap in 0..ta.len() {
-            let mut sink = Limited { buf: String::new(), cap };
-            let _ = write!(sink, "{}", &*da);
+            // the failing write itself may return an error or even panic: only what is printed
+            // afterwards is judged
+            let _ = guarded(|| {
+                let mut sink = Limited { buf: String::new(), cap };
+                let _ = write!(sink, "{}", &*da);
+            });
             // whatever happened to that write, the next prints are prints of a and of b
             for (d, v, own, who) in [(&da, &va, &owna, "the same object"), (&db, &vb, &ownb, "another object")] {
                 let t2 = d.to_string();
@@ -557,7 +559,7 @@ pub fn run(run: &Run) {
         }
         l.sample(J::s("kind=cube;p=402;q=800 (x1 x10 !x11)"));
     });
-    run.section_seq("MODES format flags and failing sinks: cubes, ecubes over 4 variables; Sop/Esop/Soes of <= 2 terms over 3 variables and two-digit indices", false, "each object printed with 9 flag combinations and into sinks failing after every byte count 0..len, each failure followed by printing the object and a second object again; all texts must read as the object's function", |l| {
+    run.section_seq("MODES format flags and failing sinks: cubes, ecubes over 4 variables; Sop/Esop/Soes of <= 2 terms over 3 variables and two-digit indices", false, "each object printed with 6 flag combinations (width, alignment, fill, sign, alternate; precision is left out: for text it legitimately means truncation) and into sinks failing after every byte count 0..len, each failure followed by printing the object and a second object again; all texts must read as the object's function", |l| {
         let mut jobs: Vec<(&str, usize, Key, Key)> = Vec::new();
         for p in 0..16u32 {
             for q in 0..16u32 {
